@@ -292,7 +292,8 @@ class ECC:
 
 
 def _sig_bytes(kind, key, msg, length):
-    tag = ideal('sig-' + kind, [len(key.raw) & 0xFF, len(key.raw) >> 8] + key.raw + msg)
+    # the total length is part of what the tag binds: a truncated signature is not a valid signature
+    tag = ideal('sig-' + kind, [length & 0xFF, length >> 8, len(key.raw) & 0xFF, len(key.raw) >> 8] + key.raw + msg)
     out = list(tag[:length])
     k = len(out)
     while len(out) < length:
@@ -329,7 +330,8 @@ class _Scheme:
         sig = _items(sig)
         mx = self.key.max_sig_len()
         if self.variable:
-            if len(sig) > mx:
+            # a signature shorter than the 32-byte tag does not bind the message in this model: never valid
+            if len(sig) > mx or len(sig) < 32:
                 raise ValueError('The signature is not authentic')
         elif len(sig) != mx:
             raise ValueError('The signature is not authentic (length)')
